@@ -1365,3 +1365,98 @@ pub fn c11_history(ctx: &mut Ctx, initial: &str, ops_text: &str) {
     }
     ctx.nontrivial_cur();
 }
+
+// =====================================================================  C05
+
+fn c05_feats(op: &Op, before: &[u8], buffer: &str) -> Feats {
+    let mut f: Feats = vec![("family", FAM.into()), ("buffer", buffer.into()), ("op", op.name().into())];
+    f.push(("arg", match op {
+        Op::SetScheme(None) | Op::SetAuthority(None) | Op::SetQuery(None) | Op::SetFragment(None) => "remove".into(),
+        Op::SetPath(p) => format!("path:{}:{}", path_form(p.as_bytes()), first_seg_class(p.as_bytes())),
+        _ => "set".into(),
+    }));
+    f.extend(state_feats(before));
+    f
+}
+
+fn c05_check(ctx: &mut Ctx, op: &Op, before_text: &[u8], after_text: &[u8], buffer: &str) {
+    let bsp = model::split(before_text);
+    let feats = || c05_feats(op, before_text, buffer);
+    if std::str::from_utf8(after_text).is_err() || !valid(Prod::RiRef, after_text) {
+        ctx.fail("C05.valid", feats(), format!("{:?} on {} gives {} which is not a valid reference", op, show(before_text), show(after_text)));
+        return;
+    }
+    let asp = model::split(after_text);
+    let (hs, ha) = (asp.scheme.is_some(), asp.authority.is_some());
+    let ob = |x: &Option<String>| x.as_ref().map(|s| s.as_bytes().to_vec());
+    // expected components
+    let mut want_scheme = bsp.scheme.map(|x| x.to_vec());
+    let mut want_auth = bsp.authority.map(|x| x.to_vec());
+    let mut want_path = bsp.path.to_vec();
+    let mut want_query = bsp.query.map(|x| x.to_vec());
+    let mut want_frag = bsp.fragment.map(|x| x.to_vec());
+    match op {
+        Op::SetScheme(s) => want_scheme = ob(s),
+        Op::SetAuthority(a) => want_auth = ob(a),
+        Op::SetPath(p) => want_path = p.as_bytes().to_vec(),
+        Op::SetQuery(q) => want_query = ob(q),
+        Op::SetFragment(f) => want_frag = ob(f),
+        _ => {}
+    }
+    let target = match op { Op::SetScheme(_) => "scheme", Op::SetAuthority(_) => "authority", Op::SetPath(_) => "path", Op::SetQuery(_) => "query", _ => "fragment" };
+    let mut cmp = |name: &str, got: Option<&[u8]>, want: Option<&[u8]>| {
+        if got != want {
+            let clause = if name == target { "C05.target" } else { "C05.frame" };
+            let mut f = feats();
+            f.push(("component", name.to_string()));
+            ctx.fail(clause, f, format!("{:?} on {} gives {}: {} reads back {} but should be {}", op, show(before_text), show(after_text), name, show_opt(got), show_opt(want)));
+        }
+    };
+    cmp("scheme", asp.scheme, want_scheme.as_deref());
+    cmp("authority", asp.authority, want_auth.as_deref());
+    cmp("query", asp.query, want_query.as_deref());
+    cmp("fragment", asp.fragment, want_frag.as_deref());
+    if !model::path_matches_shielded(asp.path, &want_path, hs, ha) {
+        let clause = if target == "path" { "C05.target" } else { "C05.frame" };
+        let mut f = feats();
+        f.push(("component", "path".to_string()));
+        ctx.fail(clause, f, format!("{:?} on {} gives {}: path reads back {} but should be {} (modulo the documented disambiguations)", op, show(before_text), show(after_text), show(asp.path), show(&want_path)));
+    } else if asp.path != &want_path[..] {
+        ctx.stratum("disambiguation-applied");
+    }
+}
+
+/// One setter call on RiRefBuf (and RiBuf when applicable).
+pub fn c05(ctx: &mut Ctx, initial: &str, op_text: &str) {
+    let ops = parse_ops(op_text);
+    let Some(op) = ops.first() else { return };
+    if !op.args_valid() { ctx.stratum("skipped:invalid-arg"); return; }
+    let Ok(mut buf) = RiRefBuf::new(own(initial)) else { ctx.stratum("skipped:rejected-by-library"); return; };
+    ctx.stratum(&format!("op:{}", op.name()));
+    ctx.call(op.name());
+    match crate::ctx::guard(|| { apply_ref_op(&mut buf, op); buf.as_bytes().to_vec() }) {
+        Err(m) => ctx.fail("C05.panic", c05_feats(op, b(initial), "RiRefBuf"), format!("{:?} on {} panicked: {}", op, show(b(initial)), m)),
+        Ok(after) => {
+            c05_check(ctx, op, b(initial), &after, "RiRefBuf");
+            if let Ok(t) = std::str::from_utf8(&after) {
+                if valid(Prod::RiRef, &after) { c02(ctx, t); }
+            }
+            ctx.set_insert("states", state_hash(b(initial)));
+            ctx.set_insert("transitions", crate::rng::mix(state_hash(b(initial)) ^ crate::rng::hash_bytes(format!("{:?}", c05_feats(op, b"", "")).as_bytes())));
+        }
+    }
+    if model::split(b(initial)).scheme.is_some() && !matches!(op, Op::SetScheme(None)) {
+        if let Ok(mut fb) = RiBuf::new(own(initial)) {
+            match crate::ctx::guard(|| { apply_full_op(&mut fb, op); fb.as_bytes().to_vec() }) {
+                Err(m) => ctx.fail("C05.panic", c05_feats(op, b(initial), "RiBuf"), format!("RiBuf: {:?} on {} panicked: {}", op, show(b(initial)), m)),
+                Ok(after) => {
+                    c05_check(ctx, op, b(initial), &after, "RiBuf");
+                    if !valid(Prod::Ri, &after) {
+                        ctx.fail("C05.valid", c05_feats(op, b(initial), "RiBuf"), format!("RiBuf: {:?} on {} gives {} which is not a valid full URI/IRI", op, show(b(initial)), show(&after)));
+                    }
+                }
+            }
+        }
+    }
+    ctx.nontrivial_cur();
+}
